@@ -5,7 +5,7 @@ use similar::Algorithm;
 
 use crate::engine::{family, guard, Config, Family, Local};
 use crate::gen;
-use crate::mon::{cmp_count, cmp_reset, CountingElem, TraceMon};
+use crate::mon::{cmp_count, cmp_reset, CountingElem, CountingKey, TraceMon};
 use crate::props::common::*;
 use crate::rng::Rng;
 
@@ -132,8 +132,95 @@ fn case(cfg: &Config, alg: Algorithm, a: &[u32], b: &[u32], fam: &str, out: &mut
     }
 }
 
+/// the same check for arbitrary hashable item types (value structure matters to hashing)
+fn case_keys<T: Clone + Eq + std::hash::Hash + Ord + std::fmt::Debug>(alg: Algorithm, a: &[T], b: &[T], fam: &str, out: &mut Local) {
+    let ca: Vec<CountingKey<T>> = a.iter().cloned().map(CountingKey).collect();
+    let cb: Vec<CountingKey<T>> = b.iter().cloned().map(CountingKey).collect();
+    let eq = |o: usize, n: usize| a[o] == b[n];
+    let mut mon = TraceMon::new(&eq, 0..a.len(), 0..b.len());
+    cmp_reset();
+    out.eval();
+    let r = guard(|| similar::algorithms::diff(alg, &mut mon, &ca[..], 0..ca.len(), &cb[..], 0..cb.len()));
+    let cmps = cmp_count();
+    match r {
+        Err(p) => out.violation("panic", format!("diff panicked: {} | alg={} family={} N={} M={}", p, alg_name(alg), fam, a.len(), b.len())),
+        Ok(_) => {
+            mon.finish_check();
+            if !mon.failures.is_empty() {
+                out.count("invalid_raw_streams_seen_owned_by_C01");
+                return;
+            }
+            let d = mon.cost() as u64;
+            let (n, m) = (a.len() as u64, b.len() as u64);
+            let bound = FACTOR.saturating_mul(n + m + 1).saturating_mul(d + 1);
+            let ratio = cmps as f64 / ((n + m + 1) * (d + 1)) as f64;
+            out.max(&format!("comparisons_per_(N+M+1)(D+1).{}.{}", alg_name(alg), fam), ratio);
+            out.count_n("comparisons_counted", cmps);
+            if cmps > bound {
+                out.violation(
+                    "work.exceeds_bound",
+                    format!(
+                        "{} comparisons for N={} M={} D={} (reported script size): more than {}*(N+M+1)*(D+1) = {} | alg={} family={} first items old={:?} new={:?}",
+                        cmps, n, m, d, FACTOR, bound, alg_name(alg), fam, &a[..a.len().min(4)], &b[..b.len().min(4)]
+                    ),
+                );
+            }
+        }
+    }
+}
+
 pub fn families() -> Vec<Box<dyn Family>> {
     vec![
+        family(
+            "value_structure",
+            "near-identical inputs (3000..60000 items, <= 3 edits) whose item VALUES have structure that weak hashing would collide on: u64 multiples of 2^16 / 2^32 / 4096, values differing only in their high bits, byte-swapped counters, and fixed-layout 96-byte String records that differ only in a middle field x {Myers, Patience}",
+            false,
+            1,
+            |cfg| if cfg.tiny { 2 } else { cfg.tier.pick(16, 96) },
+            |idx, cfg, out| {
+                let mut rng = Rng::for_case(cfg.seed, "c19.value_structure", idx);
+                let n = if cfg.tiny { 12 } else { rng.range(3000, cfg.tier.pick(40_000, 60_000)) };
+                let kind = idx % 8;
+                let f = |i: u64| -> u64 {
+                    match kind {
+                        0 => i << 16,
+                        1 => i << 32,
+                        2 => i * 4096,
+                        3 => (i << 40) | 0xabcd,
+                        4 => i.swap_bytes(),
+                        5 => i.wrapping_mul(0x1_0000_0001),
+                        _ => i << 20,
+                    }
+                };
+                out.count("value_structure_cases");
+                if kind == 7 {
+                    // fixed-layout records: same length, same head and tail, id in the middle
+                    let n = n.min(if cfg.tiny { 12 } else { 6000 });
+                    let rec = |i: usize| format!("{:<40}|id={:012}|{:>38}", "2026-10-04T00:00:00Z INFO service=api", i, "status=ok latency_ms=12 region=eu-1");
+                    let a: Vec<String> = (0..n).map(rec).collect();
+                    let mut b = a.clone();
+                    let i = rng.below(b.len());
+                    b[i] = rec(n + 7);
+                    out.sample(|| format!("{} records of {} bytes, one replaced: {:?}", n, a[0].len(), a[0]));
+                    for alg in [Algorithm::Myers, Algorithm::Patience] {
+                        out.nontrivial(&(alg_name(alg), "records", n, idx));
+                        case_keys(alg, &a, &b, "long_records", out);
+                    }
+                    return;
+                }
+                let a: Vec<u64> = (0..n as u64).map(f).collect();
+                let mut b = a.clone();
+                for _ in 0..1 + rng.below(3) {
+                    let i = rng.below(b.len());
+                    b[i] = f(n as u64 + 100 + i as u64);
+                }
+                out.sample(|| format!("{} items, value pattern #{}: {:x?}", n, kind, &a[..a.len().min(4)]));
+                for alg in [Algorithm::Myers, Algorithm::Patience] {
+                    out.nontrivial(&(alg_name(alg), kind, n, idx));
+                    case_keys(alg, &a, &b, "value_structure", out);
+                }
+            },
+        ),
         family(
             "big",
             "G-BIG: 9 structured families (near-identical with <= 5 edits, block move, periodic with phase shift, every item doubled, truncation, unrelated (capped 400x400), small alphabet, change only at the very start/end, random) with up to 4000 (quick) / 20000 (thorough) items x {Myers, Patience}; items count PartialEq calls; D = size of the script reported in that very run; violation: comparisons > 8*(N+M+1)*(D+1); non-trivial = N+M >= 200",
